@@ -6,6 +6,17 @@ output must be exactly that text.  `len(style)`/`visual_len` must be its length.
 trip (`Style.from_raw(repr(s))`) is compared attribute by attribute with the attributes the case
 asked for.  Users: `FailedParse.render(color)`/`str(FailedParse)`/`str(ParseError)` must de-escape
 to their `Color.never()` / NO_COLOR rendering.  DESIGN.md section 3/C20.
+
+Histories: the users of styling are also driven as SEQUENCES inside one process that has rendered nothing
+before (the shard process forks at the very start of its work, once per node of the tree of histories):
+operations that change what a colour policy reads (NO_COLOR/FORCE_COLOR/TERM, tty-ness of the streams,
+`Color.enable()`) interleaved with render operations that name a policy object living for the whole history
+(`Color.never()`, `Color.always()`, `Color()`, `Color.stderr()`, two toggled objects, the library default)
+through FailedParse.render / str / memento / str(ParseError) / a traced parse (colorize) / Style objects made
+at the start, made at the step or derived at the step / markup made at the start or at the step.  The
+oracle is applied to every step: the state of the named policy AT that step follows from the operations
+before it by the documented priority (explicit > NO_COLOR > FORCE_COLOR > isatty of the policy's stream);
+disabled => no escape sequence and exactly the colourless text, otherwise the output de-escapes to it.
 """
 from __future__ import annotations
 
@@ -30,7 +41,19 @@ RULE = ('style cases = (unicode text without ESC drawn from ascii/brace/quote/la
         'family messages), rendered under every colour policy; markup cases = tag/text sequences. environment cases '
         'are repeated in child processes with real env vars and a real pty. non-trivial = an output that actually '
         'carried escape sequences (or a round trip of a style that has attributes) and was compared with the oracle; '
-        'distinct by (text, attributes, spec, policy, route) resp. (grammar, source, policy)')
+        'distinct by (text, attributes, spec, policy, route) resp. (grammar, source, policy). '
+        'history cases = sequences of operations in one process that has not rendered anything: state operations '
+        '(set/unset NO_COLOR, FORCE_COLOR, TERM; stdout/stderr tty-ness; enable(True/False) on a toggled Color) and '
+        'render operations (policy object in {never, always, Color(), Color.stderr(), toggled Color(), toggled '
+        'Color.stderr(), library default} x entry points {render, render of a failure raised at the step, str, '
+        'memento, str(ParseError), traced parse with colorize on/off, Style made at the start / at the step / '
+        'derived at the step through str, f-string and apply, markup made at the start / at the step}); the tree of '
+        'all sequences of length <=3 over 8 state operations + 5 render-everything operations is enumerated from '
+        'each initial environment (every node runs in its own forked copy of the process that executed the path to '
+        'it), longer histories (4..8 operations, full alphabet, one to three entry points per render) are sampled; '
+        'EVERY render step is judged with the policy state the documented rules give for that step; non-trivial = a '
+        'step whose output carried escape sequences and was compared; distinct by (initial environment, operations '
+        'so far, entry points, material)')
 ASSUMPTIONS = [
     "python's format(text, spec) is 'the text formatted by that specification'; specs it rejects are not cases",
     'a style carrying its own fmt AND given a second spec (format(s.fmt(a), b)) is not an execution the statement '
@@ -44,6 +67,17 @@ ASSUMPTIONS = [
     '> isatty (env values used: unset or "1")',
     'in-process environment emulation replaces os.environ entries and wraps sys.stdout/sys.stderr with an object '
     'whose isatty() is fixed; child processes use real env vars, pipes and a pty',
+    'histories: the colour state of a step is that of the policy object the step passes, evaluated when the step '
+    'runs (Color.enable docstring: styles using the Color follow it; Style docstring: "when color.enabled is False '
+    'str() and apply() return the plain text"); Color()/Color.tty()/Color.default() read sys.stdout, Color.stderr() '
+    'reads sys.stderr (their docstrings); left open and checked for transparency only: the library default policy '
+    'when stdout and stderr differ in tty-ness, and a tty whose TERM is dumb/emacs',
+    'histories: the root of all histories is the shard process before it has rendered anything (it has imported '
+    'tatsu, compiled the grammars, raised the parse failures and loaded the lazy colour tables); os.fork() gives '
+    'every tree node / sampled history its own copy of that state; the colourless reference renderings are taken '
+    'in the root after all histories have run (they are that process\'s first renderings) and must be ESC-free',
+    'histories: a traced parse with colorize=False is "colour disabled", with colorize=True it follows the library '
+    'default policy; its reference text is the colorize=False trace',
 ]
 FLOORS = {
     'quick': {'outputs_checked': 180000, 'outputs_with_escapes': 90000, 'outputs_colour_off': 80000,
@@ -52,6 +86,13 @@ FLOORS = {
               'failures_rendered': 1800, 'failures_past_line_9': 550, 'parse_error_strs': 1500,
               'perr_outputs_with_escapes': 3500, 'markup_outputs_with_escapes': 2700,
               'child_processes': 40, 'child_outputs_checked': 18000, 'env_outputs': 50000,
+              'history_tree_nodes': 2745, 'history_trees_complete': 39, 'histories_sampled': 480,
+              'history_render_steps': 4400, 'history_outputs_checked': 38000, 'history_outputs_colour_off': 22000,
+              'history_outputs_with_escapes': 16000, 'history_steps_after_own_policy_flipped': 40,
+              'history_tree_off_steps_after_other_policy_went_off_to_on': 15,
+              'history_tree_on_steps_after_other_policy_went_on_to_off': 9,
+              'history_sampled_off_steps_after_other_policy_went_off_to_on': 30,
+              'history_entry:render-fresh': 900, 'history_entry:trace': 300,
               'distinct_nontrivial': 27000},
     'thorough': {'outputs_checked': 6000000, 'outputs_with_escapes': 3000000, 'outputs_colour_off': 2800000,
                  'spec_outputs_with_escapes': 2700000, 'len_checked': 1100000, 'repr_attrs_compared': 1100000,
@@ -59,7 +100,23 @@ FLOORS = {
                  'failures_rendered': 50000, 'failures_past_line_9': 17000, 'parse_error_strs': 30000,
                  'perr_outputs_with_escapes': 85000, 'markup_outputs_with_escapes': 65000,
                  'child_processes': 450, 'child_outputs_checked': 550000, 'env_outputs': 1700000,
+                 'history_tree_nodes': 7320, 'history_trees_complete': 104, 'histories_sampled': 16000,
+                 'history_render_steps': 60000, 'history_outputs_checked': 280000, 'history_outputs_colour_off': 150000,
+                 'history_outputs_with_escapes': 110000, 'history_steps_after_own_policy_flipped': 1400,
+                 'history_tree_off_steps_after_other_policy_went_off_to_on': 30,
+                 'history_tree_on_steps_after_other_policy_went_on_to_off': 24,
+                 'history_sampled_off_steps_after_other_policy_went_off_to_on': 1500,
+                 'history_entry:render-fresh': 18000, 'history_entry:trace': 5000,
                  'distinct_nontrivial': 850000},
+}
+EXHAUSTIVE = {
+    'quick': 'histories: every sequence of <=3 operations over {NO_COLOR=1, del NO_COLOR, FORCE_COLOR=1, del FORCE_COLOR, '
+             'tty on, tty off, toggled.enable(True), toggled.enable(False), render-everything with never / always / '
+             'Color() / toggled Color() / library default} from the initial environments {clean no tty, tty, '
+             'NO_COLOR+tty}: 2745 render nodes, each in its own forked process state (entry points that parse inside '
+             'the step - failure raised at the step, traced parse - run in every node of one third of the subtrees)',
+    'thorough': 'the same tree from all 8 initial environments (NO_COLOR x FORCE_COLOR x tty): 7320 render nodes, every '
+                'entry point in every node',
 }
 SHARD_TIMEOUT = {'quick': 600, 'thorough': 3000}
 PEAK_COUNTERS = ('max_sgr_sequences',)
@@ -70,6 +127,7 @@ N_PERR = {'quick': 2400, 'thorough': 60000}
 N_MARKUP = {'quick': 2400, 'thorough': 60000}
 N_CHILD = {'quick': 3, 'thorough': 8}          # child processes per shard
 CHILD_STYLES = {'quick': 60, 'thorough': 200}
+N_HIST = {'quick': 480, 'thorough': 16000}    # sampled histories (length 4..8) on top of the enumerated ones
 SHARDS = {'quick': 16, 'thorough': 64}
 
 FORMAT_ENTRIES = ('fstring', 'strformat', 'format', 'fstring-spec', 'format-method')
@@ -79,7 +137,8 @@ def plan(tier, seed):
     k = SHARDS[tier]
     return [{'seed': seed, 'shard': i, 'of': k, 'tier': tier,
              'n_style': N_STYLE[tier] // k, 'n_fail': N_FAIL[tier] // k, 'n_perr': N_PERR[tier] // k,
-             'n_markup': N_MARKUP[tier] // k, 'n_child': N_CHILD[tier], 'child_styles': CHILD_STYLES[tier]}
+             'n_markup': N_MARKUP[tier] // k, 'n_child': N_CHILD[tier], 'child_styles': CHILD_STYLES[tier],
+             'n_hist': N_HIST[tier] // k}
             for i in range(k)]
 
 
@@ -440,6 +499,7 @@ def side_notes(acc):
 
 def run_shard(desc, acc):
     seed, shard = desc['seed'], desc['shard']
+    run_histories(acc, desc)        # first: this process is the root of the histories and has rendered nothing yet
     if shard == 0:
         side_notes(acc)
     for i in range(desc['n_style']):
@@ -474,6 +534,353 @@ def run_shard(desc, acc):
             acc.sample({'markup': src, 'plain': plain, 'always': res['always'][0]})
     for k in range(desc['n_child']):
         run_child(acc, desc, k)
+
+
+# ------------------------------------------------------------------------------- histories
+#
+# A history is a sequence of operations inside ONE process that has rendered nothing before: changes of
+# what a colour policy reads (environment variables, tty-ness of the streams, Color.enable()) and render
+# operations through the users of styling, each naming the policy object it passes.  The monitor executes
+# it in a forked copy of a prepared process; the model below only follows the documented rules (Color
+# docstring) to say which state the policy named by a step is in AT that step.
+
+H_STATE_OPS = [['env', 'NO_COLOR', '1'], ['env', 'NO_COLOR', None], ['env', 'FORCE_COLOR', '1'],
+               ['env', 'FORCE_COLOR', None], ['tty', True], ['tty', False],
+               ['enable', 'tog', True], ['enable', 'tog', False]]
+H_COARSE_POLICIES = ('never', 'always', 'dflt', 'tog', 'lib')
+H_EXTRA_STATE_OPS = [['tty-out', True], ['tty-out', False], ['tty-err', True], ['tty-err', False],
+                     ['env', 'TERM', 'dumb'], ['env', 'TERM', 'xterm-256color'], ['env', 'TERM', None],
+                     ['enable', 'togerr', True], ['enable', 'togerr', False],
+                     ['env', 'NO_COLOR', 'true'], ['env', 'FORCE_COLOR', '3']]
+H_INITS = {'quick': [0, 4, 5], 'thorough': [0, 1, 2, 3, 4, 5, 6, 7]}       # indices into M.ENVS
+H_MATERIALS = 6
+H_ENUM_LEN = 3
+
+
+def sampled_history(rng):
+    """a longer history over the full alphabet; state operations that change what some dynamic policy says
+    (by the documented rules) are preferred, so that renders on both sides of a change are common"""
+    init = dict(rng.choice(M.ENVS))
+    if rng.random() < 0.3:
+        init['TERM'] = rng.choice(['dumb', 'xterm-256color'])
+    st = hist_state(init)
+    ops = []
+    n = rng.randint(4, 8)
+    state_ops = H_STATE_OPS + H_STATE_OPS + H_EXTRA_STATE_OPS
+    while len(ops) < n:
+        last = len(ops) == n - 1
+        if last or not ops or rng.random() < 0.55:
+            p = rng.choice(M.H_POLICIES)
+            es = M.entries_for(p)
+            ops.append(['render', p, rng.sample(es, rng.randint(1, min(3, len(es))))])
+            continue
+        op = [*rng.choice(state_ops)]
+        if rng.random() < 0.6:
+            before = [hist_enabled(st, q) for q in DYNAMIC]
+            changing = []
+            for cand in state_ops:
+                st2 = dict(st)
+                hist_apply(st2, cand)
+                if [hist_enabled(st2, q) for q in DYNAMIC] != before:
+                    changing.append(cand)
+            if changing:
+                op = [*rng.choice(changing)]
+        hist_apply(st, op)
+        ops.append(op)
+    return init, ops
+
+
+def history_materials(rng):
+    mats = []
+    for _ in range(H_MATERIALS):
+        gi = rng.randrange(len(M.GRAMMARS))
+        for _k in range(50):
+            case = M.gen_case(rng, mode='always')
+            try:
+                expected_text(case)
+            except ValueError:
+                continue
+            if M.has_codes(case):
+                break
+        for _k in range(50):
+            src, plain = M.gen_markup(rng)
+            if src != plain.replace('[', '[['):          # at least one tag
+                break
+        for _k in range(50):
+            source = M.gen_source(rng, gi)
+            if source.count('\n') <= 2:                   # later lines are the business of the failure cases
+                break
+        mats.append({'gi': gi, 'src': source, 'filename': gen_filename(rng), 'semmsg': gen_msg(rng),
+                     'perr': {'kind': rng.choice(['ParseError', 'GrammarError', 'CodegenError', 'HeartDied']),
+                              'msg': gen_perr_msg(rng)},
+                     'markup': src, 'plain': plain, 'style': case, 'tiny': rng.choice(M.TINY_SOURCES)})
+    return mats
+
+
+def hist_state(init):
+    tty = bool(init.get('tty'))
+    return {'NO_COLOR': init.get('NO_COLOR') is not None, 'FORCE_COLOR': init.get('FORCE_COLOR') is not None,
+            'TERM': init.get('TERM'), 'out': tty, 'err': tty, 'tog': None, 'togerr': None}
+
+
+def hist_apply(st, op):
+    kind = op[0]
+    if kind == 'env':
+        st[op[1]] = op[2] if op[1] == 'TERM' else op[2] is not None
+    elif kind == 'tty':
+        st['out'] = st['err'] = op[1]
+    elif kind in ('tty-out', 'tty-err'):
+        st[kind[4:]] = op[1]
+    elif kind == 'enable':
+        st[op[1]] = op[2]
+
+
+def hist_enabled(st, policy):
+    """the documented priority (Color docstring): explicit > NO_COLOR > FORCE_COLOR > isatty of the policy's
+    stream.  None = the documents leave it open (the library's own default policy when the two streams differ;
+    a terminal that TERM declares dumb), transparency is still required"""
+    if policy == 'never':
+        return False
+    if policy == 'always':
+        return True
+    if policy in ('tog', 'togerr') and st[policy] is not None:
+        return st[policy]
+    if st['NO_COLOR']:
+        return False
+    if st['FORCE_COLOR']:
+        return True
+    if policy == 'lib':
+        if st['out'] != st['err']:
+            return None
+        tty = st['out']
+    else:
+        tty = st['err' if policy in ('errp', 'togerr') else 'out']
+    if tty and st['TERM'] in ('dumb', 'emacs'):
+        return None
+    return tty
+
+
+def op_text(op):
+    if op[0] == 'render':           # the entry points each render runs are in the witness
+        n = f'{len(op[2])} entry points'
+        return f'render {n} with color={op[1]}' if op[1] != 'lib' else f'render {n} with the default colour'
+    if op[0] == 'env':
+        return f'del {op[1]}' if op[2] is None else f'{op[1]}={op[2]}'
+    if op[0] == 'enable':
+        return f'{op[1]}.enable({op[2]})'
+    return f'{op[0]}={op[1]}'
+
+
+def history_text(h, upto=None):
+    i = h['init']
+    env = ','.join(f'{k}={v}' for k, v in i.items() if v not in (None, False)) or 'clean environment, no tty'
+    ops = h['ops'] if upto is None else h['ops'][:upto + 1]
+    return f'[{env}] ' + ' ; '.join(op_text(o) for o in ops)
+
+
+def hist_reference(mat, ref, entry):
+    """(reference text, group) of one output name"""
+    base = entry.split(':')[0]
+    if base in ('render', 'str', 'memento'):
+        return ref['render'][0], 'render'
+    if base in ('render-fresh', 'str-fresh'):
+        return ref['fresh'][0], 'render'
+    if base == 'perr':
+        return ref['perr'][0], 'perr'
+    if base == 'trace':
+        return ref['trace'][0], 'trace'
+    if base.startswith('style'):
+        return expected_text(mat['style']), 'style'
+    return mat['plain'], 'markup'
+
+
+def check_refs(acc, mat, ref):
+    """the colourless references themselves (first renderings of a process); False = unusable"""
+    wit = {'kind': 'history', 'hist': {'init': dict(M.ENVS[0]), 'ops': [['render', 'never', ['render', 'trace']]]},
+           'mat': mat, 'origin': 'references'}
+    for key in ('render', 'fresh', 'perr', 'trace'):
+        out, err = ref[key]
+        acc.evaluations += 1
+        if err is not None or out is None:
+            acc.violation(f'history/{key}/exception:' + str(err).split(':')[0],
+                          f'colourless {key} rendering of the history material raised {err}', wit)
+            return False
+        if M.ESC in out:
+            acc.violation(f'history/{key}/off/leak', f'colourless {key} rendering (first rendering of a process) '
+                                                     f'contains escapes: {out!r}', wit)
+            return False
+    first, _, rest = mat['perr']['msg'].partition('\n')
+    if not (first in ref['perr'][0] and ref['perr'][0].endswith(rest)):
+        acc.violation('history/perr/off/text', f'colourless str({mat["perr"]["kind"]}) {ref["perr"][0]!r} does not carry '
+                                               f'the message {mat["perr"]["msg"]!r}', wit)
+        return False
+    return True
+
+
+DYNAMIC = ('dflt', 'errp', 'tog', 'togerr', 'lib')
+
+
+def check_step(acc, h, k, outs, mat, ref, origin):
+    """the oracle applied to step k of a history (every step of every history goes through here): the state of
+    the policy the step names is computed from the operations before it by the documented rules"""
+    from tatsu.util.tty import descape
+    ops = h['ops']
+    st = hist_state(h['init'])
+    seen = {}                           # policy -> documented state at its previous render in this history
+    was_off, was_on = set(), set()      # dynamic policies that rendered disabled / enabled before this step
+    for op in ops[:k]:
+        if op[0] != 'render':
+            hist_apply(st, op)
+            continue
+        e = hist_enabled(st, op[1])
+        seen[op[1]] = e
+        if op[1] in DYNAMIC and e is not None:
+            (was_on if e else was_off).add(op[1])
+    policy = ops[k][1]
+    enabled = hist_enabled(st, policy)
+    onoff = {True: 'on', False: 'off', None: 'open'}[enabled]
+    acc.count('history_render_steps')
+    acc.count(f'history_policy:{policy}:{onoff}')
+    if seen.get(policy) is not None and enabled is not None and seen[policy] != enabled:
+        acc.count('history_steps_after_own_policy_flipped')
+    where = 'tree' if 'tree' in origin else 'sampled'
+    if enabled is False and any(hist_enabled(st, q) is True for q in was_off if q != policy):
+        acc.count('history_off_steps_after_other_policy_went_off_to_on')
+        acc.count(f'history_{where}_off_steps_after_other_policy_went_off_to_on')
+    if enabled is True and any(hist_enabled(st, q) is False for q in was_on if q != policy):
+        acc.count('history_on_steps_after_other_policy_went_on_to_off')
+        acc.count(f'history_{where}_on_steps_after_other_policy_went_on_to_off')
+    escaped = False
+    for name, out, err in outs:
+        want, group = hist_reference(mat, ref, name)
+        acc.evaluations += 1
+        acc.count('history_outputs_checked')
+        acc.count('history_entry:' + name.split(':')[0])
+
+        def bad(kind, detail):
+            entries = list(dict.fromkeys(n.split(':')[0] for n, _o, _e in outs))
+            wops = [list(o) for o in ops[:k]] + [['render', policy, entries]]
+            wit = {'kind': 'history', 'hist': {'init': h['init'], 'ops': wops}, 'mat': mat, 'origin': origin}
+            acc.violation(f'history/{group}/{onoff}/{kind}',
+                          f'step {k + 1} of the history {history_text({"init": h["init"], "ops": wops})}: {name} '
+                          f'(policy {policy}: by the documented rules {onoff} at this step) {detail}', wit)
+
+        if err is not None:
+            bad('exception:' + err.split(':')[0].split(' ')[0], f'raised {err}')
+            continue
+        has_esc = M.ESC in out
+        if enabled is False:
+            acc.count('history_outputs_colour_off')
+            if has_esc:
+                bad('leak', f'has escape sequences although colour is disabled: {out!r}')
+                continue
+            if out != want:
+                bad('text', f'= {out!r} differs from the colourless text {want!r}')
+                continue
+        elif enabled is None:
+            acc.count('history_outputs_policy_open')
+        got = descape(out)
+        mine, _n = M.strip_sgr(out)
+        if got != want or mine != want:
+            kind = 'malformed' if mine is None and got == want else 'text'
+            bad(kind, f'de-escapes to {got!r} (independent: {mine!r}), the colourless text is {want!r}')
+            continue
+        if has_esc:
+            acc.count('history_outputs_with_escapes')
+            escaped = True
+    if escaped:
+        acc.nontriv('history', h['init'], ops[:k], policy, sorted(n for n, _o, _e in outs), mat['src'],
+                    mat['style']['text'])
+
+
+def run_history_job(acc, mats, hists, trees, tag, own_process=False):
+    """own_process: a new process is the root of the histories (replay); otherwise THIS process is, and the
+    caller guarantees that it has not rendered anything yet"""
+    job = {'materials': mats, 'histories': [{'mi': h['mi'], 'init': h['init'], 'ops': h['ops']} for h in hists],
+           'trees': trees}
+    if own_process:
+        out = exec_child(acc, job, dict(M.ENVS[0]), tag)
+    else:
+        scratch = os.environ.get('VT_SCRATCH') or '/tmp'
+        out = M.history_collect(job, os.path.join(scratch, f'{tag}.{os.getpid()}.nodes'))
+    if not out['usable']:
+        raise RuntimeError('C20 histories: none of the generated sources failed to parse')
+    if len(out['hist']) != len(hists) or len(out['tree_mi']) != len(trees):
+        raise RuntimeError('C20 histories: the history process answered for a different number of histories')
+    acc.count('history_root_processes')
+    refs_ok = {}
+    for mi in out['usable']:
+        refs_ok[mi] = check_refs(acc, mats[mi], out['refs'][str(mi)])
+    out['refs_ok'] = refs_ok
+    return out
+
+
+def tree_units(tier):
+    """(initial environment, first operation) pairs: the subtrees the shards share out"""
+    n_alpha = len(H_STATE_OPS) + len(H_COARSE_POLICIES)
+    return [(ei, a, tier != 'quick' or (ii + a) % 3 == 0) for ii, ei in enumerate(H_INITS[tier]) for a in range(n_alpha)]
+
+
+def expected_tree_nodes(n_alpha, n_render, maxlen):
+    """render nodes below ONE first operation"""
+    return sum(n_alpha ** (length - 2) * n_render for length in range(2, maxlen + 1))
+
+
+def run_histories(acc, desc):
+    seed, shard, of, tier = desc['seed'], desc['shard'], desc['of'], desc['tier']
+    mats = history_materials(random.Random(h64(ID, seed, shard, 'hist-materials')))
+    alphabet = [list(o) for o in H_STATE_OPS] + [['render', p] for p in H_COARSE_POLICIES]
+    trees = []
+    for u, (ei, a, heavy) in enumerate(tree_units(tier)):
+        if u % of == shard:
+            trees.append({'mi': u // of, 'init': dict(M.ENVS[ei]), 'alphabet': alphabet, 'maxlen': H_ENUM_LEN,
+                          'first': [a], 'heavy': heavy})
+    hists = []
+    for i in range(desc.get('n_hist', 0)):
+        rng = random.Random(h64(ID, seed, shard, 'hist', i))
+        init, ops = sampled_history(rng)
+        hists.append({'mi': rng.randrange(H_MATERIALS), 'init': init, 'ops': ops, 'n': i})
+    if not hists and not trees:
+        return
+    out = run_history_job(acc, mats, hists, trees, 'hist')
+    # the enumerated tree: one line per render node, judged as the last step of the path that leads to it
+    per_tree = [0] * len(trees)
+    for node in out['nodes']:
+        t, path = node['t'], node['path']
+        tree = trees[t]
+        h = {'init': tree['init'],
+             'ops': [[*alphabet[a], M.tree_entries(alphabet[a][1], path[:j + 1], t, tree['heavy'])] if alphabet[a][0] == 'render'
+                     else alphabet[a] for j, a in enumerate(path)]}
+        if 'crash' in node:
+            raise RuntimeError(f'C20 history process crashed (status {node["crash"]}) at {history_text(h)}')
+        mi = out['tree_mi'][t]
+        per_tree[t] += 1
+        acc.count('history_tree_nodes')
+        acc.count(f'history_tree_nodes_len:{len(path)}')
+        if out['refs_ok'][mi]:
+            check_step(acc, h, len(path) - 1, node['outs'], mats[mi], out['refs'][str(mi)],
+                       {'shard': shard, 'tree': t, 'path': path})
+    n_alpha, n_render = len(alphabet), len(H_COARSE_POLICIES)
+    for t, tree in enumerate(trees):
+        first_is_render = alphabet[tree['first'][0]][0] == 'render'
+        want = expected_tree_nodes(n_alpha, n_render, H_ENUM_LEN) + (1 if first_is_render else 0)
+        if per_tree[t] != want:
+            raise RuntimeError(f'C20 history tree {t}: {per_tree[t]} render nodes answered, {want} enumerated')
+        acc.count('history_trees_complete')
+    # sampled longer histories: every render step
+    for h, res in zip(hists, out['hist']):
+        if 'crash' in res:
+            raise RuntimeError(f'C20 history process crashed on {history_text(h)}: {res["crash"]} {res.get("tb", "")}')
+        mi = res['mi']
+        acc.count('histories_sampled')
+        acc.count(f'histories_sampled_len:{len(h["ops"])}')
+        if not out['refs_ok'][mi]:
+            continue
+        for k, (op, outs) in enumerate(zip(h['ops'], res['ok'])):
+            if op[0] == 'render':
+                check_step(acc, h, k, outs, mats[mi], out['refs'][str(mi)], {'shard': shard, 'n': h['n']})
+    if shard == 0 and hists:
+        acc.sample({'history': history_text(hists[-1])})
 
 
 # ------------------------------------------------------------------------------- child processes
@@ -603,17 +1010,32 @@ def replay(w, acc):
         env = w.get('env') or dict(M.ENVS[0])
         res = M.observe_markup(w['src'], env)
         check_markup(acc, w['src'], w['plain'], res, env, {'mode': 'replay'})
+    elif kind == 'history':
+        h = dict(w['hist'])
+        h['mi'] = 0
+        out = run_history_job(acc, [w['mat']], [h], [], 'replay-hist', own_process=True)
+        res = out['hist'][0]
+        if 'crash' in res:
+            raise RuntimeError(f'C20 history process crashed: {res["crash"]}')
+        for k, (op, outs) in enumerate(zip(h['ops'], res['ok'])):
+            if op[0] == 'render' and out['refs_ok'][0]:
+                check_step(acc, h, k, outs, w['mat'], out['refs']['0'], {'mode': 'replay'})
 
 
 MANIFEST = {
     'technique': 'runtime monitoring: reference-output oracle (python format() + independent SGR stripper) and metamorphic '
                  'comparison of coloured vs colourless renderings over seeded executions of the real ztyle/exception code, '
-                 'including child processes with real NO_COLOR/FORCE_COLOR/pty configurations',
+                 'including child processes with real NO_COLOR/FORCE_COLOR/pty configurations, and over histories of '
+                 'render operations and colour-policy changes inside one process (exhaustive tree of short histories, '
+                 'one forked process state per node; sampled longer ones), every step judged',
     'level_text': 'every seeded (text, attributes, spec, colour policy, construction route) case is executed through all '
                   'documented entry points of the real Style and each output is reduced with the library descape and an '
                   'independent stripper and compared with format(text, spec); len/visual_len, colour-off exactness and '
                   'the repr/from_raw round trip are checked per case; real parse failures and ParseError messages are '
-                  'rendered under every policy and compared with their colourless rendering; exploration is the right '
+                  'rendered under every policy and compared with their colourless rendering; histories of render operations '
+                  'and colour-policy changes inside one not-yet-rendering process are enumerated as a tree up to length 3 '
+                  '(each node in its own forked copy) and sampled beyond, every step judged by the policy state the '
+                  'documented rules give for that step; exploration is the right '
                   'level because the property quantifies over an unbounded text x spec x attribute space',
     'level_note': 'trusted: python str.__format__, the 30-line independent stripper, unicodedata categories used to '
                   'classify texts, the in-process tty/env emulation (cross-checked by real child processes); '
